@@ -12,6 +12,8 @@ mod map32;
 #[cfg(target_pointer_width = "64")]
 mod map64;
 #[cfg(mmtk_verif)]
+pub use self::map::CreateFreeListResult as VerifCreateFreeListResult;
+#[cfg(mmtk_verif)]
 pub use self::map32::Map32;
 #[cfg(all(mmtk_verif, target_pointer_width = "64"))]
 pub use self::map64::Map64;
